@@ -85,7 +85,8 @@ def run(run, name):
     bad = AUDITS[name](src)
     run.extra.setdefault('audits', []).append({'name': name, 'kind': 'syntactic (not proof)', 'ok': not bad, 'findings': bad})
     if bad:
-        raise check.Undecided(f'audit {name}: the code left the reviewed subset: ' + '; '.join(bad[:5]))
+        # deferred: a violation found by a verifier unit takes precedence; otherwise the run is UNDECIDED
+        run.deferred_undecided.append(f'audit {name}: the code left the reviewed subset: ' + '; '.join(bad[:5]))
 
 
 if __name__ == '__main__':
